@@ -18,6 +18,12 @@ CLAIMED = {
     "C03": ("E2", "symbolic execution of CssData::load_module (MIR), decided by z3 and cvc5",
             "bounded model checking (cache scope): one inductive step from an arbitrary cache: the module initialiser runs only on a miss, exactly once, "
             "and its result is cached under the same key; canonical spelling of the key is outside"),
+    "C04": ("E2", "symbolic execution of Context::find_file / do_find_file and FsLoader::find_file (MIR) over a nondeterministic loader and file system; path feasibility decided by z3 and cvc5",
+            "bounded model checking (lookup scope): the candidate tables are the documented lists in order (import table exactly for @import); the first existing candidate / "
+            "load path wins for every combination of present and absent files among up to 3 candidates and 3 load paths; URL normalisation and the plain-CSS fallback are outside"),
+    "C39": ("E2", "symbolic execution of Context::find_file / do_find_file and FsLoader::find_file (MIR) with a failure injected at every loader / open / read / lock call; z3 and cvc5",
+            "bounded model checking (lookup scope): every failing loader, open, read or lock call makes the lookup return an error (never Ok(None) or a later candidate); "
+            "the evaluator's callers and whole compilations are outside"),
     "C06": ("E2", "symbolic execution of the closures' MIR, obligations decided by z3 and cvc5",
             "bounded model checking (sequential scope): one inductive step of unique-id() from an arbitrary counter state; random($limit) in "
             "[1,limit] for every limit; concurrency is outside the claim"),
@@ -60,7 +66,6 @@ CLAIMED = {
 }
 
 NOT_APPLICABLE = {
-    "C04": "candidate file order is a static table walked by iterator chains over Strings inside Context::find_file / FsLoader: neither engine can execute it",
     "C05": "histories of compilations and thread schedules: Kani does not model concurrency and the sequential part needs whole compilations",
     "C07": "property of whole output buffers (CssBuf, into_buffer): needs parser + evaluator + core::fmt, which CBMC cannot execute (one concrete byte through the parser: no verdict in 900 s)",
     "C08": "relation between two whole compilations (expanded vs compressed): whole-program",
@@ -81,7 +86,6 @@ NOT_APPLICABLE = {
     "C35": "metamorphic relation between two parses of rewritten sources: parser",
     "C37": "Scope::do_use/expose over Mutex<BTreeMap>: same obstacle as C16",
     "C38": "agreement of whole-compilation entry points",
-    "C39": "loader fault sequences over whole compilations",
     "C40": "the CLI process",
 }
 
